@@ -52,15 +52,17 @@ var scenarios = []scenario{
 }
 
 type params struct {
-	maxKills int
-	thorough bool
+	maxKills    int
+	thorough    bool
+	slowStorage bool // focused part: queued snapshot writes, one worker, deeper deviation bound
 }
 
 func Run(k *report.Check) {
-	k.Rule = "cluster simulation: a real Job, W real operators and source runners (W in {1,2}), a harness source of 1-2 splits with 5-6 records over keys that collide and spread across operators, key-group count 4, read size 1-2, batch size 1-2 with 10 ms time-out; components run with the default schedule, the explorer branches at network and environment events: the next queued RPC to deliver (default oldest first, any of the next three costs one deviation), the checkpoint tick positions (enumerated), and the kill of any live worker at any network event (one deviation; a fresh worker registers, the survivor heartbeats, the job redeploys from its latest completed checkpoint). Oracle in the handler on every ProcessEventBatch: a record is never in the supplied state of its key already, every earlier record of the same split and key is; keys only reach their owning operator; at the end (input consumed, final checkpoint) the keyed state read back from the operators' DKV checkpoints with fresh databases equals the failure-free fold of the whole input. non-trivial = distinct (scenario, kill point, delivery order) executions with a kill, and of those the ones whose restore loaded non-empty state"
+	k.Rule = "cluster simulation: a real Job, W real operators and source runners (W in {1,2}), a harness source of 1-2 splits with 5-6 records over keys that collide and spread across operators, key-group count 4, read size 1-2, batch size 1-2 with 10 ms time-out; components run with the default schedule, the explorer branches at network and environment events: the next queued RPC to deliver (default oldest first, any of the next three costs one deviation), the checkpoint tick positions (enumerated), a focused part (one worker) queues the job's snapshot file writes like remote calls - by default they complete only when no call is queued - and explores one more deviation; and the kill of any live worker at any network event (one deviation; a fresh worker registers, the survivor heartbeats, the job redeploys from its latest completed checkpoint). Oracle in the handler on every ProcessEventBatch: a record is never in the supplied state of its key already, every earlier record of the same split and key is; keys only reach their owning operator; at the end (input consumed, final checkpoint) the keyed state read back from the operators' DKV checkpoints with fresh databases equals the failure-free fold of the whole input. non-trivial = distinct (scenario, kill point, delivery order) executions with a kill, and of those the ones whose restore loaded non-empty state"
 	k.Assumptions = []string{"interleavings inside a component are the component checks' subject (C02, C04, C07, C08, C13, C20): here only network-level orders and failure points are explored", "a killed worker's calls fail from the kill on; storage is shared and survives"}
 	k.Budget(150, 1500)
 	bound := k.Pick(1, 2)
+	k.ExploreSched(fmt.Sprintf("cluster/slow-snapshot-storage,deviations<=%d", bound+1), mc.Config{Bound: bound + 1, RecycleAfter: 1500, Deadline: k.Within(0.4)}, params{maxKills: 1, thorough: k.Thorough(), slowStorage: true}, body)
 	k.ExploreSched(fmt.Sprintf("cluster/deviations<=%d", bound), mc.Config{Bound: bound, RecycleAfter: 1500}, params{maxKills: bound, thorough: k.Thorough()}, body)
 }
 
@@ -68,29 +70,44 @@ func body(c *mc.Ctx) {
 	p := c.Param.(params)
 	sc := scenarios[c.Choose(len(scenarios))]
 	cfg := &cluster.Config{KeyGroups: keyGroups, Splits: sc.splits, SplitOrder: sc.order, MaxEvents: 400}
-	cfg.Workers = 1 + c.Choose(2)
-	cfg.ReadSize = 1 + c.Choose(2)
-	cfg.Batching = batching.EventBatcherParams{MaxSize: 1 + c.Choose(2), MaxDelay: 10 * time.Millisecond}
-	cfg.TickAfter = [][]int{{1}, {1, 4}, {}}[c.Choose(3)]
+	if p.slowStorage {
+		cfg.Workers, cfg.ReadSize = 1, 1
+		cfg.Batching = batching.EventBatcherParams{MaxSize: 1, MaxDelay: 10 * time.Millisecond}
+		cfg.TickAfter = [][]int{{1}, {1, 4}}[c.Choose(2)]
+	} else {
+		cfg.Workers = 1 + c.Choose(2)
+		cfg.ReadSize = 1 + c.Choose(2)
+		cfg.Batching = batching.EventBatcherParams{MaxSize: 1 + c.Choose(2), MaxDelay: 10 * time.Millisecond}
+		cfg.TickAfter = [][]int{{1}, {1, 4}, {}}[c.Choose(3)]
+	}
 	// order in which the operators' checkpoint acknowledgements reach the job (an enumerated
 	// dimension: the recorded order decides how a restore hands checkpoints to new operators)
 	reverseAcks := cfg.Workers > 1 && c.Choose(2) == 1
-	c.Op("[%s; workers=%d read=%d MaxSize=%d ticks after %v event batches; operator acks %s]", sc.name, cfg.Workers, cfg.ReadSize, cfg.Batching.MaxSize, cfg.TickAfter, map[bool]string{true: "newest first", false: "in order"}[reverseAcks])
+	// slow storage part: the job's snapshot file writes are queued events which by default complete
+	// only when no remote call is queued, so that kills, registrations and deployments land
+	// between the last acknowledgement of a checkpoint and its publication
+	slowWrite := p.slowStorage
+	cfg.QueuedSnapshotWrites = slowWrite
+	c.Op("[%s; workers=%d read=%d MaxSize=%d ticks after %v event batches; operator acks %s; snapshot write %s]", sc.name, cfg.Workers, cfg.ReadSize, cfg.Batching.MaxSize, cfg.TickAfter, map[bool]string{true: "newest first", false: "in order"}[reverseAcks], map[bool]string{true: "queued, completes last by default", false: "instantaneous"}[slowWrite])
 	// defaultIndex: the call delivered by default. Oldest first, except that operator
 	// acknowledgements are held until nothing else is queued and then delivered newest first
 	// when reverseAcks is set.
 	defaultIndex := func(pend []string) int {
-		if !reverseAcks {
-			return 0
-		}
-		lastAck := -1
+		lastAck, lastWrite := -1, -1
 		for i, l := range pend {
-			if !strings.HasPrefix(l, "OperatorCheckpointComplete(") {
+			switch {
+			case slowWrite && strings.HasPrefix(l, "StorageWrite("):
+				lastWrite = i
+			case reverseAcks && strings.HasPrefix(l, "OperatorCheckpointComplete("):
+				lastAck = i
+			default:
 				return i
 			}
-			lastAck = i
 		}
-		return lastAck
+		if lastAck >= 0 {
+			return lastAck
+		}
+		return max(lastWrite, 0)
 	}
 	var cl *cluster.Cluster
 	finished := false
@@ -177,7 +194,12 @@ func body(c *mc.Ctx) {
 				}
 			case choice < killBase:
 				idle = 0
-				c.Op("deliver-out-of-order: %s", cl.Deliver(choice))
+				// the alternatives are the first queued calls other than the default one
+				idx, def := choice, defaultIndex(pend)
+				if def < nDeliver && choice <= def {
+					idx = choice - 1
+				}
+				c.Op("deliver-out-of-order: %s", cl.Deliver(idx))
 			default:
 				idle = 0
 				i := choice - killBase
@@ -244,7 +266,10 @@ func body(c *mc.Ctx) {
 	if cl.Kills > 0 && cl.Restores > 0 {
 		c.Note("executions_with_a_restore_from_a_checkpoint")
 		if os.Getenv("C01_DEBUG") != "" {
-			if f, err := os.OpenFile("/tmp/c01dbg.txt", os.O_APPEND|os.O_CREATE|os.O_WRONLY, 0o644); err == nil { fmt.Fprintf(f, "RESTORE %v %v\n", c.Choices(), c.Ops()); f.Close() }
+			if f, err := os.OpenFile("/tmp/c01dbg.txt", os.O_APPEND|os.O_CREATE|os.O_WRONLY, 0o644); err == nil {
+				fmt.Fprintf(f, "RESTORE %v %v\n", c.Choices(), c.Ops())
+				f.Close()
+			}
 		}
 	}
 	if cl.Kills > 0 {
